@@ -109,6 +109,9 @@ def exec_op(o, op):
             elif name == "measurements":
                 f = Measurements.from_diffusion_curves_first if op.get("ci", 0) == 0 else Measurements.from_diffusion_curves_second
                 out = call(f, o.curves)
+            elif name == "curve_metrics":
+                dc = o.curves.diffusion_curves[op.get("ci", 0) % len(o.curves.diffusion_curves)]
+                out = call(lambda: [dc.permeate_composition, dc.get_separation_factor, dc.get_psi, dc.get_selectivity, dc.get_permeances])
             elif name == "membrane":
                 c = o.mix.first_component if op.get("ci", 0) == 0 else o.mix.second_component
                 what = op["what"]
